@@ -120,11 +120,12 @@ def parse_template(path):
             if word == 'unit' and cur is None:
                 out.append(('line', line, no))
                 continue
-            if word == 'extract':
+            if word in ('extract', 'extract?'):
                 if cur is not None:
                     raise GenError('%s:%s nested //@extract' % (path, no))
                 kind, hdr = rest.split(None, 1)
                 cur = Block(kind, hdr, no)
+                cur.optional = (word == 'extract?')
                 sub = None
                 continue
             if word == 'end':
@@ -618,7 +619,19 @@ def generate(template, repo_root, out_rs, out_map):
             emit(p[1] + '\n', {'src': 'template', 'line': p[2]})
             continue
         blk = p[1]
-        if blk.kind == 'fn':
+        if getattr(blk, 'optional', False):
+            # `//@extract?`: the item may legitimately be absent (template follows the code across a repair)
+            try:
+                if blk.kind == 'fn':
+                    item_id, segs, origin_of = build_fn(repo, blk, log)
+                else:
+                    item_id, segs, origin_of = build_type(repo, blk, log)
+            except GenError as e:
+                if 'matched 0 items' in str(e):
+                    log.setdefault('skipped_optional', []).append(blk.header)
+                    continue
+                raise
+        elif blk.kind == 'fn':
             item_id, segs, origin_of = build_fn(repo, blk, log)
         elif blk.kind == 'type':
             item_id, segs, origin_of = build_type(repo, blk, log)
